@@ -81,4 +81,5 @@ let drv side f =
 
 let () =
   register "strm" strm;
-  register "drv" drv
+  register "drv" drv;
+  register "drvn" drv
